@@ -413,6 +413,13 @@ func (jointr *jointRowReader) tryHashProbe(
 	if !jointr.hashJoinChecked[i] {
 		jointr.hashJoinChecked[i] = true
 
+		// eligibility is decided on the condition as written: once the values of the
+		// first outer row are substituted, a conjunct over both tables can no longer
+		// be told from one over the inner table only
+		if !hashJoinEligible(jspec.cond, innerAlias) {
+			return false, nil, nil, nil
+		}
+
 		_, innerSels, innerResidual, planOk := extractEquiJoinPlan(reducedWhere, innerAlias)
 		if !planOk {
 			return false, nil, nil, nil
